@@ -37,6 +37,7 @@ var importSubst = map[string]string{
 	"net":         "verifsim/sim/simnet",
 	"crypto/rand": "verifsim/sim/simrand",
 	"time":        "verifsim/sim/simtime",
+	"runtime":     "verifsim/sim/simruntime",
 }
 
 // Options configures a rewriter run.
